@@ -2,6 +2,7 @@ import AbraModel.Drv.Util
 import AbraModel.Drv.I64
 import AbraModel.Drv.GC
 import AbraModel.Drv.Arena
+import AbraModel.Drv.IdSet
 import AbraModel.Drv.Sort
 import AbraModel.Drv.CallOrder
 import AbraModel.Drv.Pratt
@@ -22,6 +23,7 @@ def dispatch (line : String) : String :=
   | "i64" :: rest => handleI64 rest
   | "gc" :: rest => handleGC rest
   | "arena" :: rest => handleArena rest
+  | "idset" :: rest => handleIdSet rest
   | "sort" :: rest => handleSort rest
   | "callorder" :: rest => handleCallOrder rest
   | "pratt" :: rest => handlePratt rest
